@@ -65,6 +65,11 @@ fn arith_table(splits: &[usize], rng: &mut Rng) -> GenTable {
     gt
 }
 
+/// constants within reach of the i64 limits by the offsets / widths of the narrow encodings
+const NEAR_LIMITS: &[i64] = &[
+    i64::MAX - 1, i64::MAX - 2, i64::MAX - 100, i64::MAX - 255, i64::MAX - 256, i64::MAX - 1000, i64::MAX - 65_535, i64::MAX - 65_536,
+    i64::MIN + 1, i64::MIN + 2, i64::MIN + 100, i64::MIN + 255, i64::MIN + 256, i64::MIN + 1000, i64::MIN + 65_535, i64::MIN + 65_536,
+];
 const COLS: &[&str] = &["a_u8", "a_u8n", "a_off", "a_neg", "a_u16", "a_u32", "a_small", "a_edge", "a_edgen", "a_zero", "a_pos"];
 const OPS: [Op; 5] = [Op::Add, Op::Sub, Op::Mul, Op::Div, Op::Mod];
 
@@ -119,10 +124,37 @@ fn run_case(id: String, seed: u64, n: usize, parts: usize, nq: usize, out: &mut 
     let case = json!({"n": n, "splits": splits});
     let mut env = setup(gt, &real, &mut rng, op);
     let mut sampled = false;
-    for k in 0..nq {
+    // Deterministic boundary grid (added after seed C06d, which random expression trees hit too rarely): every column x
+    // operator x operand order against constants at and next to the i64 limits and the encoding boundaries; each case takes
+    // a rotating slice of the constants so that the whole grid is covered over the cases of one run.
+    let case_no: usize = id.rsplit('-').next().and_then(|x| x.parse().ok()).unwrap_or(0);
+    let mut grid: Vec<(Q, String)> = Vec::new();
+    for (ci, c) in COLS.iter().enumerate() {
+        for (oi, o) in OPS.iter().enumerate() {
+            for order in 0..2usize {
+                for pick in 0..3usize {
+                    let k = if pick < 2 { NEAR_LIMITS[(case_no * 2 + pick + ci + oi * 3 + order) % NEAR_LIMITS.len()] } else { EDGE[(case_no + ci * 5 + oi + order) % EDGE.len()] };
+                    let k = if k == i64::MIN { i64::MIN + 1 } else { k };
+                    let e = if order == 0 { bin(*o, col(c), E::Int(k)) } else { bin(*o, E::Int(k), col(c)) };
+                    let mut q = Q::new("t");
+                    q.select.push((col("id"), None));
+                    q.select.push((e, None));
+                    let kc = if k > i64::MAX - 70_000 { "near_max" } else if k < i64::MIN + 70_000 { "near_min" } else { "edge" };
+                    grid.push((q, format!("grid:{}{}{}|{}", if order == 0 { c } else { kc }, o.sql(), if order == 0 { kc } else { c }, order)));
+                }
+            }
+        }
+    }
+    let ngrid = grid.len();
+    let mut grid = grid.into_iter();
+    for k in 0..nq + ngrid {
         let mut q = Q::new("t");
         let label;
-        if k % 5 == 4 {
+        if let Some((gq, gl)) = grid.next() {
+            q = gq;
+            label = gl;
+            out.count("boundary_grid_statements", 1);
+        } else if k % 5 == 4 {
             // SUM over the overflow layouts, with and without grouping
             let c = *rng.pick(&["s_cross", "s_trans", "s_in", "a_edge", "a_u32", "a_edgen"]);
             if rng.chance(0.5) {
